@@ -31,6 +31,14 @@ CHECKS = {
         "Same trusted base as C05; D=1 quick, D=2 thorough; prompt virtual time.",
         "3/C06",
     ),
+    "C26": (
+        "model_checking",
+        "sim",
+        "differential replay of identical recorded schedules of the real code with and without raising notification handlers (deviation-bounded exhaustive)",
+        "Every life-cycle scenario is executed in pairs under the same recorded schedule: all handlers returning vs. a raising handler for each of the 17 notification events alone (default schedule; D=1 thorough) and for all events at once (all schedules with <= 1 deviation); every byte on the wire in both directions, both outcomes, terminal events and uncaught exceptions must be identical.  Nine intervention-handler scenarios with raising handlers check the documented failure status / rejection.",
+        "Same trusted base as C05/C06; raising handlers are bound after the observing handlers because pynetdicom stops calling an event's remaining handlers once one raises.",
+        "3/C26",
+    ),
     "C27": (
         "model_checking",
         "sim",
